@@ -41,6 +41,9 @@ pub fn run(ctx: &Ctx) {
     ctx.search("many-records", ctx.n(4_000, 400_000), &move || gen::conformant_case(big, BuildOpts::STRICT), &oracle);
     let wide = StreamCfg { max_fields: 90, ids: (1, 2), calls: (1, 2), max_sets: 3, max_recs: 3, ..c };
     ctx.search("wide-templates", ctx.n(10_000, 1_000_000), &move || gen::conformant_case(wide, BuildOpts::STRICT), &oracle);
+    // an id may be a template and, later (also later in the same packet), an options template, and back
+    let mixed = StreamCfg { mixed_kinds: true, ..c };
+    ctx.search("kind-changes", ctx.n(40_000, 4_000_000), &move || gen::conformant_case(mixed, BuildOpts::STRICT), &oracle);
     // counts on and around 2^8, 2^10, 2^12, 2^14 (records, fields, sets, template definitions)
     ctx.enumerate("boundary-counts", gen::boundary_count_cases(crate::wire::Proto::Ipfix), false, &oracle);
     // one or two ids redefined over and over (100-900 calls, data after every redefinition; several hundred redefinitions of one id)
